@@ -13,7 +13,7 @@ NTag(seq, tag) == Cardinality({k \in 1..Len(seq) : seq[k][2] = tag})
 Note(cond, seq, tag) == IF cond \/ NTag(seq, tag) >= 60 THEN seq ELSE Append(seq, <<l, tag>>)
 TInit == /\ l = 1 /\ viol = <<>> /\ drift = <<>> /\ nchk = 0 /\ nfail = 0
          /\ plan = <<>> /\ step = 1 /\ errs = <<>> /\ zero = {} /\ result = "trace"
-PlanOf(e) == [fp |-> {e.fp[k] : k \in 1..Len(e.fp)}, nameFail |-> e.nameFail, threads |-> e.threads, exited |-> e.exited, rsp0 |-> e.rsp0,
+PlanOf(e) == [fp |-> {e.fp[k] : k \in 1..Len(e.fp)}, nameFail |-> e.nameFail, threads |-> e.threads, exited |-> e.exited, refused |-> e.refused, rsp0 |-> e.rsp0,
               prinNotRef |-> e.prinNotRef, dsoFail |-> e.dsoFail, handlesFail |-> FALSE, auxvComplete |-> e.auxvComplete,
               unreadable |-> IF "unreadable" \in DOMAIN e THEN {e.unreadable[k] : k \in 1..Len(e.unreadable)} ELSE {}]
 AllTypes == {3, 4, 5, 6, 7, 16, 1197932547, 1197932548, 1197932549, 1197932550, 1197932551, 1197932552, 1197932553, 1197932554,
